@@ -17,7 +17,16 @@ from cv import algos, graphs  # noqa: E402
 from cv.core import VERIF, Check  # noqa: E402
 from cayleypy import BfsResult, CayleyGraph, CayleyGraphDef  # noqa: E402
 
-THEOREMS = []
+THEOREMS = [
+    "Cv.SaveLoad.exRes_wf",
+    "Cv.SaveLoad.load_save",
+    "Cv.SaveLoad.load_save_exact",
+    "Cv.SaveLoad.beq_iff",
+    "Cv.SaveLoad.beq_refl",
+    "Cv.SaveLoad.beq_symm",
+    "Cv.SaveLoad.beq_load_save",
+    "Cv.SaveLoad.loaded_answers",
+]
 NAMES = ["a", "b'", "L", "R", "x y", "π", "Ω-1", 'q"uote', "日本", "g,1", "0", "", "__", "layer__3"]
 
 
